@@ -11,12 +11,12 @@ def describe(tier):
         rule="history system: from every validated object of the history sub-universe (live poisoned neighbours flush on both sides; in the thorough tier "
         "also from every state one legal assignment later), every misuse of the property's list at every element position: index tuples with a "
         "component in {-1, dim, dim+1} (read and write), whole-array update of other length / other shape with equal item count, string longer than "
-        "the space fixed at creation (by 1 byte, a slot, many; multi-byte text that fits in characters but not in bytes), same-length list with one larger dynamic item (first item; last item in memory order with the earlier ones replaced / shrunk so that the total does not grow), whole-struct dictionary whose last dynamic part is too large while earlier fields change, non-member value for a union reference; "
+        "the space fixed at creation (by 1 byte, a slot, many; multi-byte text that fits in characters but not in bytes), same-length list with one larger dynamic item (first item; last item in memory order with the earlier ones replaced / shrunk so that the total does not grow), whole-struct dictionary whose last dynamic part is too large while earlier fields change, non-member value for a union reference (alone, and - as foreign object, unknown (name, data) pair or 1-tuple - inside a whole-struct / whole-array update whose other entries change), integer update naming another length (and, for n-D arrays, the item count); "
         "plus constructor misuse on the whole universe (_buffer of another context together with _context; _offset without _buffer). "
         "Oracle: an exception is raised and victim + neighbours read back unchanged.",
         bounds=dict(history_types=len(universe.rh(tier)), legal_prefix_depth=0 if tier == "quick" else 1),
         assumptions=["only the misuse classes named by the property are demanded to raise"],
-        must_fire=["x-index", "x-len", "x-str", "x-items", "x-struct", "x-struct-xobj", "x-union", "x-ctx", "x-offset"],
+        must_fire=["x-index", "x-len", "x-str", "x-items", "x-struct", "x-struct-xobj", "x-union", "x-union-in", "x-ctx", "x-offset"],
     )
 
 
@@ -90,6 +90,48 @@ def shrink_value(t, v):
     return v
 
 
+def union_paths(t, v, path=()):
+    """paths (relative, never through a reference) of the union references held by value inside (t, v)"""
+    k = t[0]
+    if k == "U":
+        yield path
+    elif k == "St":
+        for n, ft in t[1]:
+            yield from union_paths(ft, v[n], path + (n,))
+    elif k == "A":
+        for idx in xt.mem_indices(v["shape"], t[3]):
+            yield from union_paths(t[1], v["items"][idx], path + (idx,))
+
+
+def alt_everywhere(t, v, n=0):
+    """same layout, other leaf values wherever no reference is involved"""
+    k = t[0]
+    if k in ("R", "U"):
+        return v
+    if k == "St":
+        return {nm: alt_everywhere(ft, v[nm], n + i) for i, (nm, ft) in enumerate(t[1])}
+    if k == "A":
+        return {"shape": v["shape"], "items": {idx: alt_everywhere(t[1], iv, n + j) for j, (idx, iv) in enumerate(v["items"].items())}}
+    return hist.same_size_alt(t, v, n)
+
+
+def py_put(arg, rp, value):
+    """replace the entry at relative path rp of the plain-python form"""
+    for p in rp[:-1]:
+        if isinstance(p, tuple):
+            for i in p:
+                arg = arg[i]
+        else:
+            arg = arg[p]
+    p = rp[-1]
+    if isinstance(p, tuple):
+        for i in p[:-1]:
+            arg = arg[i]
+        arg[p[-1]] = value
+    else:
+        arg[p] = value
+
+
 def misuse_menu(s, opts, d):
     if d < opts.get("prefix", 0):
         o = dict(opts)
@@ -121,13 +163,24 @@ def misuse_menu(s, opts, d):
                         evs.append(("x-len", via, path, "shorter"))
                     if len(shape) > 1 and len(set(shape)) > 1 and all(sh > 0 for sh in shape):
                         evs.append(("x-len", via, path, "reshape"))
+                    if not xt.is_dyn(nt[1]) and nt[2][0] is None and all(d is not None for d in nt[2][1:]):
+                        # the integer form of an update ("keep the length"): any other integer is another length
+                        evs.append(("x-len", via, path, "int-longer"))
+                        if len(shape) > 1 and int(np.prod(shape)) != shape[0]:
+                            evs.append(("x-len", via, path, "int-total"))
                     if xt.is_dyn(nt[1]) and nv["items"] and grow_value(nt[1], next(iter(nv["items"].values()))) is not None:
                         evs.append(("x-items", via, path, "first"))
                         if len(nv["items"]) > 1:
                             evs.append(("x-items", via, path, "last-alt"))
                             if any(st[0] == "Str" for st in xt.subtypes(nt[1])):
                                 evs.append(("x-items", via, path, "last-shrink"))
-        elif nt[0] == "St" and path and path[-1] not in ("*", "#") and len(nt[1]) > 1 and xt.is_dyn(nt) and grow_value(nt, nv) is not None:
+        if nt[0] in ("St", "A") and (not path or path[-1] not in ("*", "#")) and seen_arr <= opts.get("max_arrays", 4):
+            # a non-member for a union reference held (by value) somewhere inside a compound that is updated as a whole
+            inner = [rp for rp in union_paths(nt, nv) if rp]
+            for rp in inner[:1] + inner[-1:] if len(inner) > 1 else inner:
+                for form in ("foreign-object", "unknown-name", "one-tuple"):
+                    evs.append(("x-union-in", "h", path, rp, form))
+        if nt[0] == "St" and path and path[-1] not in ("*", "#") and len(nt[1]) > 1 and xt.is_dyn(nt) and grow_value(nt, nv) is not None:
             for via in ("h", "v"):
                 evs.append(("x-struct", via, path))
             evs.append(("x-struct-xobj", "h", path))
@@ -169,6 +222,9 @@ def apply_misuse(s, ev):
     if kind == "x-len":
         shape = list(nv["shape"])
         proto = next(iter(nv["items"].values())) if nv["items"] else xt.gen(nt[1], "ramp")
+        if ev[3] in ("int-longer", "int-total"):
+            hand.assign(rt, rh, path, int(shape[0] + 1 if ev[3] == "int-longer" else np.prod(shape)))
+            return
         if ev[3] == "longer":
             shape[0] += 1
         elif ev[3] == "shorter":
@@ -221,6 +277,24 @@ def apply_misuse(s, ev):
         g = grow_value(nt, nv)
         src = xt.construct(nt, xt.to_py(nt, g), _buffer=place.traced("np", 0))
         hand.assign(rt, rh, path, src)
+    elif kind == "x-union-in":
+        rp, form = ev[3], ev[4]
+
+        class NotAMember(xo.Struct):
+            q = xo.Int64
+
+        if form == "foreign-object":
+            bad = NotAMember(q=1, _buffer=s.h._buffer)
+        elif form == "unknown-name":
+            bad = ("NoSuchType", {"q": 1})
+        else:
+            bad = (NotAMember(q=1, _buffer=s.h._buffer),)
+        arg = xt.to_py(nt, alt_everywhere(nt, nv))
+        py_put(arg, rp, bad)
+        if path:
+            hand.assign(rt, rh, path, arg)
+        else:
+            (rh.get() if rt[0] == "U" and hasattr(rh, "get") else rh)._update(arg)
     elif kind == "x-union":
         if ev[3] == "foreign-object":
             class NotAMember(xo.Struct):
@@ -253,7 +327,7 @@ def judge(s, ev, res):
         return [common.violation("C11.refused", "misuse-hangs", {}, {}, "")], False
     except Exception as e:
         raised = e
-    feat = dict(misuse=ev[0], detail=ev[3] if len(ev) > 3 else None, mode=ev[4] if len(ev) > 4 else None)
+    feat = dict(misuse=ev[0], detail=(ev[3] if ev[0] != "x-union-in" else ev[4]) if len(ev) > 3 else None, mode=ev[4] if len(ev) > 4 else None)
     if raised is None:
         res.outcomes["accepted:" + ev[0]] += 1
         after = place.whole(s.h._buffer)
